@@ -29,6 +29,7 @@ type BankKnobs struct {
 	NoInvokeEK bool
 	PFault     int
 	PPanic     int
+	PErr2      int // prefer an entry with two error results
 	PRepeat    int // allow a second instance of an already used entry (same code pointer)
 	PDefer     int
 	PRecover   int
@@ -93,6 +94,18 @@ func (g *bankGen) pickEntry(kind string, s int, lbl string) (int, bool) {
 		}
 		if len(usedL) > 0 {
 			return usedL[g.pick(len(usedL), lbl+"ru")], true
+		}
+	}
+	if kind != "invoke" && g.pct(g.bk.PErr2, lbl+"err2") {
+		// functions with two error results (both non-nil on failure)
+		var two []int
+		for _, i := range all {
+			if BankSpecs[i].Err2 {
+				two = append(two, i)
+			}
+		}
+		if len(two) > 0 {
+			return two[g.pick(len(two), lbl+"e2")], true
 		}
 	}
 	if kind == "invoke" && g.pct(g.bk.PDeepFail, lbl+"deepfail") {
